@@ -511,6 +511,27 @@ def check_factories(ctx: Ctx):
         ctx.violation("C13:json_factory:Distribution", f"Distribution factory evaluates to {got} expected {want}", {"json": js})
     if d.x is not dic["x"]:
         ctx.violation("C13:json_factory:Distribution-identity", "x of the distribution is not the registered object", {"json": js})
+    # an object inlined under full_like / zeros_like / ones_like is an object like any other: registered, shared, duplicate-checked
+    for key in ("full_like", "zeros_like", "ones_like"):
+        js3 = {"id": "holder", "type": "Parameter", key: {"id": "tmpl", "type": "Parameter", "tensor": [1.0, 2.0, 3.0]}}
+        if key == "full_like":
+            js3["tensor"] = 2.0
+        dic3 = {}
+        ctx.add("evaluations")
+        ctx.distinct(("factory", "inlined-" + key))
+        try:
+            process_object(js3, dic3)
+            v3 = process_object(ViewParameter.json_factory("vt", "tmpl", "0:2"), dic3)
+            if "tmpl" not in dic3 or v3.parameter is not dic3["tmpl"]:
+                ctx.violation("C13:inlined-like:not-registered", f"the parameter inlined under {key} is not the registered object of its id", {"json": js3})
+        except Exception as e:
+            ctx.violation("C13:inlined-like:not-registered", f"a reference to the parameter inlined under {key} is rejected: {type(e).__name__}: {str(e)[:100]}", {"json": js3})
+            continue
+        try:
+            process_object({"id": "tmpl", "type": "Parameter", "tensor": [7.0]}, dic3)
+            ctx.violation("C13:inlined-like:duplicate-accepted", f"the id of the parameter inlined under {key} can be defined again", {"json": js3})
+        except Exception:
+            pass
     # a type name denotes one class whatever was loaded before: short (registered) names after full-path look-ups of
     # classes with the same final component
     from torchtree.core import utils as U
@@ -593,5 +614,6 @@ def run(ctx: Ctx):
     # growth of the specification: plate expansion (Plates.tla) - runs before the loader and produces the ids it sees
     from . import plates
     plates.check(ctx, ctx.tier == "quick")
+    plates.check_main_pipeline(ctx)
     ctx.cov["rule"] = ("every document of the TLC-enumerated bound (ids a,b,c; nesting depth and widths per config) is loaded by the real loader; "
                        "non-trivial = ill-formed (duplicate/dangling/missing id/ancestor re-declaration) or containing at least one resolved reference")
